@@ -167,6 +167,7 @@ type Group struct {
 	StaleMin       int             `json:"staleMin,omitempty"`
 	Pods           []Pod           `json:"pods"`
 	NoPodGroup     bool            `json:"noPodGroup,omitempty"`
+	Family         string          `json:"family,omitempty"` // C16: identical workloads of one queue
 }
 
 type Topology struct {
